@@ -19,6 +19,9 @@ import (
 	"time"
 
 	"github.com/containerd/stargz-snapshotter/estargz"
+	"github.com/containerd/stargz-snapshotter/estargz/externaltoc"
+	"github.com/containerd/stargz-snapshotter/estargz/zstdchunked"
+	"github.com/klauspost/compress/zstd"
 	"verif/harness/hx"
 )
 
@@ -108,7 +111,21 @@ func buildBlob(c *Case) (blob []byte, tocOff int64, ents []*estargz.TOCEntry, er
 		return nil, 0, nil, err
 	}
 	var out bytes.Buffer
-	w := estargz.NewWriterLevel(&out, c.Level)
+	var w *estargz.Writer
+	var ext *externaltoc.GzipCompressor
+	switch c.Comp {
+	case "zstd":
+		w = estargz.NewWriterWithCompressor(&out, &zstdchunked.Compressor{CompressionLevel: zstd.EncoderLevel(1 + (c.Level&3+4)%4)})
+	case "exttoc":
+		lv := c.Level
+		if lv < -2 || lv > 9 {
+			lv = 6
+		}
+		ext = externaltoc.NewGzipCompressorWithLevel(lv)
+		w = estargz.NewWriterWithCompressor(&out, ext)
+	default:
+		w = estargz.NewWriterLevel(&out, c.Level)
+	}
 	w.ChunkSize = c.ChunkSize
 	w.MinChunkSize = c.MinChunkSize
 	if err := w.AppendTar(bytes.NewReader(tb)); err != nil {
@@ -118,27 +135,93 @@ func buildBlob(c *Case) (blob []byte, tocOff int64, ents []*estargz.TOCEntry, er
 		return nil, 0, nil, err
 	}
 	blob = out.Bytes()
+	switch c.Comp {
+	case "zstd":
+		d := &zstdchunked.Decompressor{}
+		_, off, size, err := d.ParseFooter(blob[len(blob)-zstdchunked.FooterSize:])
+		if err != nil {
+			return nil, 0, nil, err
+		}
+		toc, _, err := d.ParseTOC(io.NewSectionReader(bytes.NewReader(blob), off, size))
+		if err != nil {
+			return nil, 0, nil, err
+		}
+		return blob, off - 8, toc.Entries, nil // off - 8: start of the skippable frame holding the TOC
+	case "exttoc":
+		var tb bytes.Buffer
+		if _, err := ext.WriteTOCTo(&tb); err != nil {
+			return nil, 0, nil, err
+		}
+		c.extTOC0 = tb.Bytes()
+		ents, err := decodeTOCMember(c.extTOC0)
+		return blob, int64(len(blob)), ents, err
+	}
 	tocOff, _, err = estargz.OpenFooter(io.NewSectionReader(bytes.NewReader(blob), 0, int64(len(blob))))
 	if err != nil {
 		return nil, 0, nil, err
 	}
+	ents, err = decodeTOCMember(blob[tocOff:])
+	return blob, tocOff, ents, err
+}
+
+// decodeTOCMember decodes a gzip member holding a tar with the TOC JSON.
+func decodeTOCMember(b []byte) ([]*estargz.TOCEntry, error) {
+	var tocOff int64
+	blob := b
 	zr, err := gzip.NewReader(bytes.NewReader(blob[tocOff:]))
 	if err != nil {
-		return nil, 0, nil, err
+		return nil, err
 	}
 	zr.Multistream(false)
 	tr := tar.NewReader(zr)
 	if _, err := tr.Next(); err != nil {
-		return nil, 0, nil, err
+		return nil, err
 	}
 	var toc estargz.JTOC
 	if err := json.NewDecoder(tr).Decode(&toc); err != nil {
-		return nil, 0, nil, err
+		return nil, err
 	}
-	return blob, tocOff, toc.Entries, nil
+	return toc.Entries, nil
 }
 
 // wrapTOC re-attaches a TOC (JSON bytes) behind the data members.
+// tocMember is the gzip member (tar with stargz.index.json) of a TOC.
+func tocMember(tocJSON []byte) []byte {
+	var buf bytes.Buffer
+	gz, _ := gzip.NewWriterLevel(&buf, gzip.BestSpeed)
+	tw := tar.NewWriter(gz)
+	if err := tw.WriteHeader(&tar.Header{Typeflag: tar.TypeReg, Name: estargz.TOCTarName, Size: int64(len(tocJSON))}); err != nil {
+		panic(err)
+	}
+	tw.Write(tocJSON)
+	tw.Close()
+	gz.Close()
+	return buf.Bytes()
+}
+
+// zstdTOC is the zstd:chunked manifest (skippable frame with the compressed TOC) and footer for a TOC placed at off.
+func zstdTOC(off int64, tocJSON []byte) []byte {
+	var cb bytes.Buffer
+	enc, err := zstd.NewWriter(&cb)
+	if err != nil {
+		panic(err)
+	}
+	enc.Write(tocJSON)
+	enc.Close()
+	skip := func(b []byte) []byte {
+		size := make([]byte, 4)
+		binary.LittleEndian.PutUint32(size, uint32(len(b)))
+		return append(append([]byte{0x50, 0x2a, 0x4d, 0x18}, size...), b...)
+	}
+	footer := make([]byte, zstdchunked.FooterSize)
+	binary.LittleEndian.PutUint64(footer, uint64(off)+8)
+	binary.LittleEndian.PutUint64(footer[8:], uint64(cb.Len()))
+	binary.LittleEndian.PutUint64(footer[16:], uint64(len(tocJSON)))
+	binary.LittleEndian.PutUint64(footer[24:], 1)
+	copy(footer[32:40], []byte{0x47, 0x6e, 0x55, 0x6c, 0x49, 0x6e, 0x55, 0x78})
+	return append(skip(cb.Bytes()), skip(footer)...)
+}
+
 func wrapTOC(data []byte, tocOff int64, tocJSON []byte) []byte {
 	var buf bytes.Buffer
 	buf.Write(data[:tocOff])
